@@ -136,6 +136,11 @@ type SpecDB struct {
 	// PkgInvariants: per package path, global invariants assumed at the entry
 	// of every function of that package (established by package initialisation).
 	PkgInvariants map[string][]Clause
+	// Dropped: contract clauses that are not assumed (a relied-upon clause
+	// failed in its own function and the functions relying on it are being
+	// re-verified without it).  Keys: <func key>/post/<label> for
+	// postconditions, <func key>/inv/<loop label>/<label> for loop invariants.
+	Dropped map[string]bool
 }
 
 func NewSpecDB() *SpecDB {
